@@ -57,6 +57,7 @@ structure BatchInv (cfg : Cfg) (den : Key → α) (rest : List (Key × α)) (s :
     ∀ d ∈ e.2.depsOf k, e.2.cache.get? d = some (den d) ∧ done cfg.g e.2 d
   noFinish : ∀ e ∈ s.log, ∀ b, e.1 ≠ Ev.finish b
   ordered : Ordered s.log
+  snapSound : ∀ e ∈ s.log, CacheSound den e.2
 
 abbrev SysInv (cfg : Cfg) (den : Key → α) (s : Sys α) : Prop := BatchInv cfg den [] s
 
@@ -187,7 +188,7 @@ theorem fire_spec {cfg : Cfg} (P : Params α) {den : Key → α} (hden : IsDen c
       simp [hargs]
     have hrunS : ∀ k, k ∈ pendKeys s ↔ k ∈ s.st.running := by
       intro k; have := h.running k; simpa using this
-    refine ⟨hinv1, ?_, ?_, ?_, ?_, ?_, ?_, ?_, ?_, ?_, ?_, ?_, ?_, ?_⟩
+    refine ⟨hinv1, ?_, ?_, ?_, ?_, ?_, ?_, ?_, ?_, ?_, ?_, ?_, ?_, ?_, ?_⟩
     · intro d v hv; exact h.sound d v (by rw [← c1]; exact hv)
     · rw [hpk]
       simp only [List.map_nil, List.append_nil]
@@ -243,7 +244,7 @@ theorem fire_spec {cfg : Cfg} (P : Params α) {den : Key → α} (hden : IsDen c
       rcases List.mem_append.mp he' with he1 | he1
       · rcases List.mem_append.mp he1 with he2 | he2
         · exact h.preSnap e he2 k hk
-        · obtain ⟨k', hk', hsnap⟩ := hev e he2
+        · obtain ⟨k', hk', _, hsnap⟩ := hev e he2
           rw [hk'] at hk
           cases hk
           exact hsnap
@@ -277,6 +278,18 @@ theorem fire_spec {cfg : Cfg} (P : Params α) {den : Key → α} (hden : IsDen c
           rw [← hb] at hk'; cases hk'
       rw [this] at hk
       cases hk
+    · intro e he
+      have he' : e ∈ (s.log ++ log') ++ bs.map (fun b => (Ev.submit (b.map (·.1)), s1)) := he
+      rcases List.mem_append.mp he' with he1 | he1
+      · rcases List.mem_append.mp he1 with he2 | he2
+        · exact h.snapSound e he2
+        · obtain ⟨_, _, hc, _⟩ := hev e he2
+          intro d v hv
+          exact h.sound d v (by rw [← hc]; exact hv)
+      · obtain ⟨b', _, hb⟩ := List.mem_map.mp he1
+        intro d v hv
+        rw [← hb] at hv
+        exact h.sound d v (by rw [← c1]; exact hv)
   · intro hrun0 hr0
     have h1 := hprog hrun0 hr0
     show s.pending ++ bs ≠ []
